@@ -170,7 +170,7 @@ def check_C01(ctx):
     gens = [lines_gen(6 if q else 8, 3, 3, ["Ru", "R", "P"], blank=False),
             lines_gen(6 if q else 9, 2, 2, ["Ru", "Pu", "R"], blank=True, base=1),
             lines_gen(7 if q else 9, 2, 2, ["Ru"], blank=False, pairs=True, max_code=4),     # touching removed regions + unwrap
-            lines_gen(14, 3, 5, ["Ru", "R", "P", "Pu", "T", "S"], free=(0, 2), ws=(2,), simulate=(40 if q else 5000, 14))]
+            lines_gen(14, 3, 5, ["Ru", "R", "P", "Pu", "T", "S"], free=(0, 2), ws=(2,), simulate=(40 if q else 2000, 14))]
     ctx.job("unwrap-wrapper-tags", gens=gens, invariants=["Inv_C01"], ops=ops, cfg={"ds": "<", "de": ">"}, nontrivial=has_ready)
     junk_jobs(ctx, ["Inv_C01"], ops, None)
     # bad configuration strings must not panic either
@@ -263,8 +263,8 @@ def block_jobs(ctx, invariants, ops, lite=False):
         ("block-two", [lines_gen(11, 1, 2, ["R"], base=0, ws=()), lines_gen(10, 2, 2, ["R", "P"], base=1, ws=())]),
         ("block-tab-mb", [lines_gen(7, 2, 2, ["R", "P"], unit="\t", base=1, ws=(1,)), lines_gen(8, 2, 2, ["R", "P"], base=1, ws=(2,), mb=True),
                           lines_gen(7, 2, 2, ["T", "F"], unit="    ", base=0, suffix="é")]),
-        ("block-sim", [lines_gen(14, 3, 5, ["R", "P", "S", "SP", "SF", "U", "T", "F"], ws=(2,), base=ctx.seed % 2, simulate=(20000, 14)),
-                       kitchen_sink(ctx, ["R", "P", "S", "U", "T", "F"], 14, 6000)]),
+        ("block-sim", [lines_gen(14, 3, 5, ["R", "P", "S", "SP", "SF", "U", "T", "F"], ws=(2,), base=ctx.seed % 2, simulate=(5000, 14)),
+                       kitchen_sink(ctx, ["R", "P", "S", "U", "T", "F"], 14, 2000)]),
         ("block-html", [dict(lines_gen(7, 2, 2, ["R", "P", "T"], ws=(2,)), cfg=html)]),
         ("block-wide-blanks", [lines_gen(7, 1, 2, ["R"], blank=True, wide=True, max_code=3), lines_gen(6, 2, 2, ["R", "P"], base=1, ws=(1,), wide=True)]),
         ("block-padded-tags", [lines_gen(6, 2, 2, ["R", "P", "T"], blank=False, pad=" "), lines_gen(6, 2, 2, ["R", "P"], pad="  ")]),
@@ -332,8 +332,8 @@ def unwrap_jobs(ctx, invariants, ops, lite=False):
                           lines_gen(8, 1, 1, ["Ru"], free=(0, 1, 2), blank=False, flag_val='="true"'),
                           lines_gen(8, 2, 2, ["Ru", "Su", "R"], free=(1,), blank=False, flag_val="='1'"),
                           lines_gen(8, 2, 2, ["Ru", "Tu", "P"], free=(1,), blank=False, quote='"', flags_first=True)]),
-        ("unwrap-sim", [lines_gen(16, 3, 4, ["Ru", "R", "P", "Pu", "S", "Su"], free=(0, 1, 2), ws=(2,), simulate=(20000, 16)),
-                        kitchen_sink(ctx, ["Ru", "R", "P", "Pu", "T", "Tu", "Su"], 16, 6000)]),
+        ("unwrap-sim", [lines_gen(16, 3, 4, ["Ru", "R", "P", "Pu", "S", "Su"], free=(0, 1, 2), ws=(2,), simulate=(5000, 16)),
+                        kitchen_sink(ctx, ["Ru", "R", "P", "Pu", "T", "Tu", "Su"], 16, 2000)]),
     ]
     for (name, gens) in sets:
         ctx.job(name, gens=gens, invariants=invariants, ops=ops, cfg=cfg, nontrivial=has_ready)
